@@ -84,6 +84,66 @@ let bool_ b = A (if b then "T" else "F")
 let to_bool = function A "T" -> true | A "F" -> false | _ -> failwith "driver: bool expected"
 let optres f = function Some x -> L [A "ok"; f x] | None -> A "err"
 
+(* ---- diagrams ---- *)
+open Datatypes
+let nlist = function L l -> Stdlib.List.map num l | _ -> failwith "driver: list expected"
+let value (x : sexp) : Concrete.coq_val =
+  match x with
+  | L [A "v"; e; rel; suf] -> Coq_inl (num e, (nlist rel, nlist suf))
+  | L (A "s" :: _) -> Coq_inr (str x)
+  | _ -> failwith "driver: value expected"
+let svalue (v : Concrete.coq_val) : sexp =
+  match v with
+  | Coq_inl (e, (rel, suf)) -> L [A "v"; an e; L (Stdlib.List.map an rel); L (Stdlib.List.map an suf)]
+  | Coq_inr s -> sstr s
+let var_ (x : sexp) : Concrete.var =
+  match x with
+  | L [A "ver"; k] -> Concrete.VVersion (num k)
+  | L [A "str"; k] -> Concrete.VString (num k)
+  | L [A "in"; k; s] -> Concrete.VIn (num k, str s)
+  | L [A "co"; k; s] -> Concrete.VContains (num k, str s)
+  | L [A "ex"; a; s] -> Concrete.VExtra (num a <> N0, str s)
+  | _ -> failwith "driver: var expected"
+let svar (v : Concrete.var) : sexp =
+  match v with
+  | Concrete.VVersion k -> L [A "ver"; an k]
+  | Concrete.VString k -> L [A "str"; an k]
+  | Concrete.VIn (k, s) -> L [A "in"; an k; sstr s]
+  | Concrete.VContains (k, s) -> L [A "co"; an k; sstr s]
+  | Concrete.VExtra (a, s) -> L [A "ex"; A (if a then "1" else "0"); sstr s]
+let cut_ (x : sexp) : Concrete.coq_val CutDef.cut =
+  match x with
+  | L [v; A "b"] -> (value v, CutDef.Below)
+  | L [v; A "a"] -> (value v, CutDef.Above)
+  | _ -> failwith "driver: cut expected"
+let scut ((v, s) : Concrete.coq_val CutDef.cut) : sexp =
+  L [svalue v; A (match s with CutDef.Below -> "b" | CutDef.Above -> "a")]
+let rec tree (x : sexp) : (Concrete.var, Concrete.coq_val) DDModel.dd =
+  match x with
+  | A "T" -> DDModel.Leaf true
+  | A "F" -> DDModel.Leaf false
+  | L [A "R"; k; d0; L ds] ->
+      DDModel.RNode (var_ k, tree d0,
+        Stdlib.List.map (function L [c; d] -> (cut_ c, tree d) | _ -> failwith "driver: edge expected") ds)
+  | L [A "B"; k; hi; lo] -> DDModel.BNode (var_ k, tree hi, tree lo)
+  | _ -> failwith "driver: tree expected"
+let rec stree (t : (Concrete.var, Concrete.coq_val) DDModel.dd) : sexp =
+  match t with
+  | DDModel.Leaf b -> bool_ b
+  | DDModel.RNode (k, d0, ds) ->
+      L [A "R"; svar k; stree d0; L (Stdlib.List.map (fun (c, d) -> L [scut c; stree d]) ds)]
+  | DDModel.BNode (k, hi, lo) -> L [A "B"; svar k; stree hi; stree lo]
+let scmp (c : comparison) : sexp = A (match c with Eq -> "Eq" | Lt -> "Lt" | Gt -> "Gt")
+let n_eq (a : coq_N) (b : coq_N) : bool = BinNat.N.eqb a b
+(* environment: ((k version) ...) ((k string) ...) *)
+let env_ (vs : sexp) (ss : sexp) : Concrete.env =
+  let vtab = match vs with L l -> Stdlib.List.map (function L [k; v] -> (num k, (match value v with Coq_inl x -> x | _ -> failwith "driver: version expected")) | _ -> failwith "driver: env") l | _ -> failwith "driver: env" in
+  let stab = match ss with L l -> Stdlib.List.map (function L [k; s] -> (num k, str s) | _ -> failwith "driver: env") l | _ -> failwith "driver: env" in
+  let rec find k = function [] -> None | (k', v) :: r -> if n_eq k k' then Some v else find k r in
+  { Concrete.env_version = (fun k -> match find k vtab with Some v -> v | None -> failwith "driver: env lacks a version key");
+    Concrete.env_string = (fun k -> match find k stab with Some v -> v | None -> failwith "driver: env lacks a string key") }
+let strs = function L l -> Stdlib.List.map str l | _ -> failwith "driver: string list expected"
+
 (* ---- dispatch ---- *)
 let run (cmd : sexp) : sexp =
   match cmd with
@@ -96,6 +156,19 @@ let run (cmd : sexp) : sexp =
          bool_ (NameModel.valid_name s);
          sstr (NameModel.spec_norm false s);
          (match owned with Some n -> L [A "ok"; sstr (NameModel.dist_info n); sstr (NameModel.spec_dist_info n)] | None -> A "err")]
+  | L [A "and"; a; b] -> stree (Concrete.m_and (tree a) (tree b))
+  | L [A "or"; a; b] -> stree (Concrete.m_or (tree a) (tree b))
+  | L [A "not"; a] -> stree (Concrete.m_not (tree a))
+  | L [A "disjoint"; a; b] -> bool_ (Concrete.m_disjoint (tree a) (tree b))
+  | L [A "wfb"; a] -> bool_ (Concrete.m_wfb (tree a))
+  | L [A "eqb"; a; b] -> bool_ (Concrete.m_eqb (tree a) (tree b))
+  | L [A "eval"; a; vs; ss; ex] -> bool_ (Concrete.m_eval (env_ vs ss) (strs ex) (tree a))
+  | L [A "simpx"; a; ex] -> stree (Concrete.m_simplify_extras (strs ex) (tree a))
+  | L [A "evalx"; a; ex] -> bool_ (Concrete.m_eval_extras (strs ex) (tree a))
+  | L [A "valcmp"; a; b] -> scmp (Concrete.m_val_cmp (value a) (value b))
+  | L [A "varcmp"; a; b] -> scmp (Concrete.m_var_cmp (var_ a) (var_ b))
+  | L [A "substring"; a; b] -> bool_ (Concrete.substring (str a) (str b))
+  | L [A "echo"; a] -> stree (tree a)
   | L (A op :: _) -> L [A "unknown-op"; A op]
   | _ -> failwith "driver: bad command"
 
